@@ -95,6 +95,9 @@ class YowNetworkLayer(YowLayer, ConnectionCallbacks):
         self._dispatcher.connect(endpoint)
 
     def destroyConnection(self, reason=None):
+        if self.state == self.__class__.STATE_DISCONNECTED:
+            logger.warn("Ignoring disconnect request, not connected")
+            return
         self._disconnect_reason = reason
         self.state = self.__class__.STATE_DISCONNECTING
         self._dispatcher.disconnect()
